@@ -166,7 +166,8 @@ def run(ctx):
     if rng.random() < 0.6:
       names.append(''.join(CHARS[rng.randint(1, 9)] for _ in range(n)))
     else:
-      names.append(''.join(rng.choice(['..', '/', '../', './', ';', '=', '~', 'x', 'Ω', '中', '\\', ' ', '\t', '%2e', '_DOT_', 'DOT', '.wsp', '‮'])
+      names.append(''.join(rng.choice(['..', '/', '../', './', ';', '=', '~', 'x', 'Ω', '中', '\\', ' ', '\t', '%2e', '_DOT_', 'DOT', '.wsp', '‮',
+                                       '\uff0f', '\uff0e', '\u2024', '\u2025', '\ufe52', '\u2215', '\u29f8'])      # look-alikes of / and .
                            for _ in range(rng.randint(1, 12))))
   recs = []
   for hi, hash_only in enumerate((False, True)):
@@ -228,6 +229,28 @@ def run(ctx):
       ctx.violation(WHAT[f], dict(name=rec['text'][0], whisper_path=rec['text'][1], ceres_node=rec['text'][2],
                                   tag_hash_filenames=bool(rec['hash'])), signature=f)
   concurrent_paths(ctx, database, settings, root)
+  # a second database object for ANOTHER data directory (re-configuration, a second instance in one process):
+  # its files belong under its own directory
+  root2 = os.path.realpath(os.path.join(ctx.scratch, 'data2'))
+  os.makedirs(root2, exist_ok=True)
+  for hash_only in (False, True):
+    settings['TAG_HASH_FILENAMES'] = hash_only
+    settings['LOCAL_DATA_DIR'] = root
+    first = database.WhisperDatabase(settings)
+    sample = [names[i] for i in range(0, len(names), max(1, len(names) // 300))] + ['a.b.c', 'x;t=1', 'm']
+    for nm in sample:
+      first.getFilesystemPath(nm)
+    settings['LOCAL_DATA_DIR'] = root2
+    second = database.WhisperDatabase(settings)
+    for nm in sample:
+      ctx.evaluations += 1
+      p2 = second.getFilesystemPath(nm)
+      if not (os.path.realpath(os.path.normpath(p2)) + os.sep).startswith(root2 + os.sep):
+        ctx.violation('a database object configured for another data directory places the file of %r outside it (under the directory of an '
+                      'earlier object): %r' % (nm, p2), dict(name=nm, path=p2, data_dir=root2, earlier_data_dir=root, tag_hash_filenames=hash_only),
+                      signature='file-outside-data-dir')
+        break
+    settings['LOCAL_DATA_DIR'] = root
   # names the pickle listener can deliver but UTF-8 cannot encode (lone surrogates): the path functions may
   # refuse them (nothing is created), but a path they do return must still lie inside the data directory
   sur = ['a;t=\udc80/../../../../../x', '\udc80/../../x', 'a.b;x=\ud800;y=/../../../etc', '../\udfff;k=v/../../..', 'x\udc80y',
